@@ -39,6 +39,10 @@ def endsWith (p t : Text) : Bool := t.drop (t.length - p.length) == p && p.lengt
 
 /-! ### parse_color -/
 
+/-- `c in string.hexdigits` -/
+def isHexDigit (c : Char) : Bool :=
+  (48 ≤ c.toNat && c.toNat ≤ 57) || (97 ≤ c.toNat && c.toNat ≤ 102) || (65 ≤ c.toNat && c.toNat ≤ 70)
+
 /-- `parse_color(text)`; `none` = `ValueError("Wrong color format")`. -/
 def parseColor (T : Tables) (text : Text) : Option Text :=
   if T.ansiNames.contains text then some text else
@@ -54,7 +58,9 @@ def parseColor (T : Tables) (text : Text) : Option Text :=
       match lookup col T.aliases with
       | some v => some v
       | none =>
-        if col.length == 6 then some col
+        -- (`T.hexValidated`: the digits are checked, else any 6 / 3 characters are accepted)
+        if T.hexValidated && !col.all isHexDigit then none
+        else if col.length == 6 then some col
         else match col with
           | [a, b, c] => some [a, a, b, b, c, c]
           | _ => none
